@@ -131,6 +131,13 @@ static struct cstl_dlist auxlist;
 static struct lelem auxel[8];
 static int reentrant;
 
+/* element handles (see the trees world): what the caller hands to the library may be an address past the link members
+ * ("negative" offsets) or 2^31 / 2^32 bytes before the structure. Auxiliary, nested and huge lists keep plain pointers. */
+static size_t g_hnd;
+#define HND(e) ((void *)((uintptr_t)(e) + g_hnd))
+#define ELM(h) ((struct lelem *)((uintptr_t)(h) - g_hnd))
+#define ELMN(h) ((h) ? ELM(h) : NULL)
+
 static int cmp_desc(const void *a, const void *b, void *p)
 {
     const struct lelem *x = a, *y = b;
@@ -162,7 +169,7 @@ static void reenter(const struct lelem *x)
 
 static int cmp_key(const void *a, const void *b, void *p)
 {
-    const struct lelem *x = a, *y = b;
+    const struct lelem *x = ELM(a), *y = ELM(b);
     (void)p;
     if (reentrant) { CB_ENTER(); reenter(x); CB_LEAVE(); }
     return sim_cmp((x->key > y->key) - (x->key < y->key));
@@ -172,7 +179,7 @@ static int cmp_key(const void *a, const void *b, void *p)
  * Every find in the library hands the comparison function (sought object, element), and such callers rely on it. */
 static int cmp_find_barekey(const void *a, const void *b, void *p)
 {
-    const struct lelem *y = b; int k;
+    const struct lelem *y = ELM(b); int k;
     if (a != p) {
         CB_ENTER();
         sim_violation("C12/find_argument_order/d_find/bare-key", b == p ? "find handed the comparison function (element, sought object); every find in the library passes (sought object, element) and callers searching by a bare key rely on it"
@@ -184,7 +191,7 @@ static int cmp_find_barekey(const void *a, const void *b, void *p)
 
 static int cmp_key_mod(const void *a, const void *b, void *p)
 {
-    const struct lelem *x = a, *y = b;
+    const struct lelem *x = ELM(a), *y = ELM(b);
     int m = (int)(intptr_t)p;
     int kx = x->key % m, ky = y->key % m;
     return sim_cmp((kx > ky) - (kx < ky));
@@ -207,7 +214,7 @@ static int visit_cb(void *obj, void *priv)
     int r = 0;
     (void)priv;
     if (nvis < MAXVIS) {
-        vis[nvis] = obj;
+        vis[nvis] = ELM(obj);
         vis_removed[nvis] = 0;
         if (vis_remove_pm && vis_list) {
             uint64_t x = vis_remove_seed + (uint64_t)nvis;
@@ -218,8 +225,8 @@ static int visit_cb(void *obj, void *priv)
                 g_inlib = 0;
                 vis_removed[nvis] = 1;
                 /* once removed the element is the caller's: free it (poisoned) right here */
-                memset(obj, 0xDD, sizeof(struct lelem));
-                simheap_free(obj);
+                memset(ELM(obj), 0xDD, sizeof(struct lelem));
+                simheap_free(ELM(obj));
             }
         }
     }
@@ -265,7 +272,7 @@ static void nested_list_clear(void)
 static void clear_cb(void *obj, void *priv)
 {
     CB_ENTER();
-    struct lelem *e = obj;
+    struct lelem *e = ELM(obj);
     int id = -1;
     if (reentrant) nested_list_clear();
     (void)priv;
@@ -325,8 +332,8 @@ static void audit_d(int li)
     if (l->h.p != prev) VIOL(m, 1, "back_links", "list %d: sentinel back link is not the last element", li);
 
     /* API view */
-    TRY(f = cstl_dlist_front(l));
-    TRY(b = cstl_dlist_back(l));
+    TRY(f = cstl_dlist_front(l)); f = ELMN(f);
+    TRY(b = cstl_dlist_back(l)); b = ELMN(b);
     if (f != (m->n ? (void *)m->e[0] : NULL)) VIOL(m, 1, "front", "list %d: front() wrong", li);
     if (b != (m->n ? (void *)m->e[m->n - 1] : NULL)) VIOL(m, 1, "back", "list %d: back() wrong", li);
 
@@ -371,8 +378,8 @@ static void audit_s(int li)
     }
     if (n != NULL) VIOL(m, 0, "links", "list %d: walk continues past %d elements", li, m->n);
 
-    TRY(f = cstl_slist_front(l));
-    TRY(b = cstl_slist_back(l));
+    TRY(f = cstl_slist_front(l)); f = ELMN(f);
+    TRY(b = cstl_slist_back(l)); b = ELMN(b);
     if (f != (m->n ? (void *)m->e[0] : NULL)) VIOL(m, 0, "front", "list %d: front() wrong", li);
     /* the tail clause: back() must be the node whose next is NULL */
     if (b != (m->n ? (void *)m->e[m->n - 1] : NULL))
@@ -423,7 +430,7 @@ static void check_sorted_perm(struct mlist *m, int is_d, struct lelem **got, int
         if (j == m->n) VIOL(m, is_d, "sort_perm", "sort result holds an element not in the list (or twice) at %d", i);
     }
     for (i = 1; i < n; i++)
-        if (cmp(got[i - 1], got[i], priv) > 0)
+        if (cmp(HND(got[i - 1]), HND(got[i]), priv) > 0)
             VIOL(m, is_d, "sort_order", "sort result not ordered at %d", i);
     for (i = 0; i < n; i++) m->e[i] = got[i];
 }
@@ -578,8 +585,14 @@ static void l_exec(const plan_t *p)
     memset(dl, (int)(unsigned char)p->cfg[CF_JUNK], sizeof dl); memset(sl, (int)(unsigned char)p->cfg[CF_JUNK], sizeof sl);
     for (i = 0; i < MAXL; i++) {
         md[i].kind = (int)(p->cfg[CF_HET] >> i & 1); ms[i].kind = (int)(p->cfg[CF_HET] >> (4 + i) & 1);
-        cstl_dlist_init(&dl[i], doff(md[i].kind));
-        cstl_slist_init(&sl[i], soff(ms[i].kind));
+        if (i == 0) switch (p->cfg[CF_HET] >> 8 & 7) {
+        default: g_hnd = 0; break;
+        case 1: case 2: g_hnd = sizeof(struct lelem); PROBE("handles_past_the_node_members"); break;
+        case 3: g_hnd = (size_t)0 - (((size_t)1 << 31) + 24); PROBE("handles_2^31_before_the_node_members"); break;
+        case 4: g_hnd = (size_t)0 - (((size_t)1 << 32) + 24); PROBE("handles_2^32_before_the_node_members"); break;
+        }
+        cstl_dlist_init(&dl[i], doff(md[i].kind) - g_hnd);
+        cstl_slist_init(&sl[i], soff(ms[i].kind) - g_hnd);
         md[i].n = 0; ms[i].n = 0; md[i].since_clear = -1; ms[i].since_clear = -1;
     }
 
@@ -609,22 +622,22 @@ static void l_exec(const plan_t *p)
             if (m->n >= maxlen) goto d_pop_front;
             e = new_elem(key);
             if (o->a[2] & 1) {
-                if (!d_accessors_around_push_front(D, e, m->n))
+                if (!d_accessors_around_push_front(D, HND(e), m->n))
                     VIOL(m, 1, "accessor_after_mutation", "front()/back() called right after push_front, in the function that made the call, do not show the new element");
                 PROBE("d_accessors_around_mutation");
             } else {
-                TRY(cstl_dlist_push_front(D, e)); check_noabort(m, 1);
+                TRY(cstl_dlist_push_front(D, HND(e))); check_noabort(m, 1);
             }
             m_insert(m, 0, e); EVT("d_push_front", li, e->id, key);
             break;
         case D_PUSH_BACK:
             if (m->n >= maxlen) goto d_pop_back;
             e = new_elem(key);
-            TRY(cstl_dlist_push_back(D, e)); check_noabort(m, 1);
+            TRY(cstl_dlist_push_back(D, HND(e))); check_noabort(m, 1);
             m_insert(m, m->n, e); EVT("d_push_back", li, e->id, key);
             break;
         case D_POP_FRONT: d_pop_front:
-            TRY(ret = cstl_dlist_pop_front(D)); check_noabort(m, 1);
+            TRY(ret = cstl_dlist_pop_front(D)); ret = ELMN(ret); check_noabort(m, 1);
             if (m->n == 0) {
                 PROBE("d_pop_empty");
                 if (ret != NULL) VIOL(m, 1, "pop_empty", "pop_front on an empty list returned non-NULL");
@@ -636,7 +649,7 @@ static void l_exec(const plan_t *p)
             }
             break;
         case D_POP_BACK: d_pop_back:
-            TRY(ret = cstl_dlist_pop_back(D)); check_noabort(m, 1);
+            TRY(ret = cstl_dlist_pop_back(D)); ret = ELMN(ret); check_noabort(m, 1);
             if (m->n == 0) {
                 PROBE("d_pop_empty");
                 if (ret != NULL) VIOL(m, 1, "pop_empty", "pop_back on an empty list returned non-NULL");
@@ -652,7 +665,7 @@ static void l_exec(const plan_t *p)
             {
                 int pos = (int)(o->a[2] % (uint64_t)m->n);
                 e = new_elem(key);
-                TRY(cstl_dlist_insert(D, m->e[pos], e)); check_noabort(m, 1);
+                TRY(cstl_dlist_insert(D, HND(m->e[pos]), HND(e))); check_noabort(m, 1);
                 m_insert(m, pos + 1, e); EVT("d_insert", li, pos, e->id);
             }
             break;
@@ -662,7 +675,7 @@ static void l_exec(const plan_t *p)
                 int pos = (int)(o->a[2] % (uint64_t)m->n);
                 if (o->a[3] == 1) pos = 0; else if (o->a[3] == 2) pos = m->n - 1;
                 e = m->e[pos];
-                TRY(cstl_dlist_erase(D, e)); check_noabort(m, 1);
+                TRY(cstl_dlist_erase(D, HND(e))); check_noabort(m, 1);
                 m_remove(m, pos); EVT("d_erase", li, pos, e->id);
                 drop_elem(e);
             }
@@ -739,9 +752,10 @@ static void l_exec(const plan_t *p)
                 TRY(ret = cstl_dlist_find(D, &barekey, cmp_find_barekey, &barekey,
                                           dir ? CSTL_DLIST_FOREACH_DIR_REV : CSTL_DLIST_FOREACH_DIR_FWD));
             } else
-            TRY(ret = cstl_dlist_find(D, &probe, cmp_key, NULL,
+            TRY(ret = cstl_dlist_find(D, HND(&probe), cmp_key, NULL,
                                       dir ? CSTL_DLIST_FOREACH_DIR_REV : CSTL_DLIST_FOREACH_DIR_FWD));
             check_noabort(m, 1);
+            ret = ELMN(ret);
             if (!dir) { for (i = 0; i < m->n; i++) if (m->e[i]->key == key) { want = i; break; } }
             else { for (i = m->n - 1; i >= 0; i--) if (m->e[i]->key == key) { want = i; break; } }
             if (want < 0) { PROBE("d_find_absent"); if (ret != NULL) VIOL(m, 1, "find_absent", "find returned an element for an absent key"); }
@@ -802,7 +816,7 @@ static void l_exec(const plan_t *p)
         case S_PUSH_FRONT:
             if (m->n >= maxlen) goto s_pop_front;
             e = new_elem(key);
-            TRY(cstl_slist_push_front(S, e)); check_noabort(m, 0);
+            TRY(cstl_slist_push_front(S, HND(e))); check_noabort(m, 0);
             m_insert(m, 0, e); EVT("s_push_front", li, e->id, key);
             break;
         case S_PUSH_BACK:
@@ -812,17 +826,17 @@ static void l_exec(const plan_t *p)
                 /* the accessors are called before and after the mutation in one small function of optimised caller code
                  * (no setjmp in it): what a caller's optimiser may assume about them - attributes in the header - is
                  * part of the interface */
-                if (!s_accessors_around_push_back(S, e, m->n))
+                if (!s_accessors_around_push_back(S, HND(e), m->n))
                     VIOL(m, 0, "accessor_after_mutation", "back()/front() called right after push_back, in the function that made the call, do not show the new element");
                 PROBE("s_accessors_around_mutation");
             } else {
-                TRY(cstl_slist_push_back(S, e)); check_noabort(m, 0);
+                TRY(cstl_slist_push_back(S, HND(e))); check_noabort(m, 0);
             }
             m_insert(m, m->n, e); EVT("s_push_back", li, e->id, key);
             break;
         case S_POP_FRONT: s_pop_front:
             if (m->n == 0) { PROBE("s_pop_empty"); if (!(m->since_clear >= 0 && m->since_clear <= 3)) g_cur_ctx = "empty-list"; }
-            TRY(ret = cstl_slist_pop_front(S)); check_noabort(m, 0);
+            TRY(ret = cstl_slist_pop_front(S)); ret = ELMN(ret); check_noabort(m, 0);
             if (m->n == 0) {
                 if (ret != NULL) VIOL(m, 0, "pop_empty", "pop_front on an empty list returned non-NULL");
             } else {
@@ -838,7 +852,7 @@ static void l_exec(const plan_t *p)
                 int pos = (int)(o->a[2] % (uint64_t)m->n);
                 if (o->a[3] == 1) pos = m->n - 1;      /* after the tail */
                 e = new_elem(key);
-                TRY(cstl_slist_insert_after(S, m->e[pos], e)); check_noabort(m, 0);
+                TRY(cstl_slist_insert_after(S, HND(m->e[pos]), HND(e))); check_noabort(m, 0);
                 if (pos == m->n - 1) PROBE("s_insert_after_tail");
                 m_insert(m, pos + 1, e); EVT("s_insert_after", li, pos, e->id);
             }
@@ -849,7 +863,7 @@ static void l_exec(const plan_t *p)
                 int pos = (int)(o->a[2] % (uint64_t)(m->n - 1));
                 if (o->a[3] == 1) pos = m->n - 2;      /* erase the last element */
                 e = m->e[pos + 1];
-                TRY(ret = cstl_slist_erase_after(S, m->e[pos])); check_noabort(m, 0);
+                TRY(ret = cstl_slist_erase_after(S, HND(m->e[pos]))); ret = ELMN(ret); check_noabort(m, 0);
                 if (ret != e) VIOL(m, 0, "erase_after", "erase_after returned the wrong element");
                 if (pos + 1 == m->n - 1) PROBE("s_erase_last");
                 m_remove(m, pos + 1); EVT("s_erase_after", li, pos, e->id);
@@ -998,7 +1012,7 @@ static void l_gen(prng_t *r, int mode, plan_t *p)
     p->cfg[CF_MAXLEN] = longrun ? 300 + prng_below(r, 700) : small ? 2 + prng_below(r, 5) : 4 + prng_below(r, 40);
     p->cfg[CF_CLEARFREES] = (mode == 15) ? 1 : prng_chance(r, 1, 2);
     p->cfg[CF_LONG] = (uint64_t)longrun | (prng_chance(r, 1, 6) ? 256 : 0);
-    p->cfg[CF_HET] = prng_chance(r, 1, 3) ? prng_below(r, 128) : 0;
+    p->cfg[CF_HET] = (prng_chance(r, 1, 3) ? prng_below(r, 128) : 0) | (prng_chance(r, 1, 3) ? prng_below(r, 8) << 8 : 0);
     nops = longrun ? 400 + (int)prng_below(r, 1600) : small ? 2 + (int)prng_below(r, 9) : 10 + (int)prng_below(r, 70);
     w_clear = (mode == 15) ? 12 : 2;
 
